@@ -235,7 +235,9 @@ pub fn check(case: &Case, w: usize) -> CheckResult {
                     Some(_) => 200,
                     None => 3,
                 };
-                beh.insert((c.clone(), t.path.clone()), Behavior { sleep_ms, exit, ..Default::default() });
+                // a third of the failing executables do not exit by themselves: they are killed by a signal
+                let kill_self = if exit != 0 && exit % 3 == 0 { Some(9) } else { None };
+                beh.insert((c.clone(), t.path.clone()), Behavior { sleep_ms, exit, kill_self, ..Default::default() });
             }
         }
     }
@@ -491,6 +493,18 @@ pub fn check(case: &Case, w: usize) -> CheckResult {
                 let want = if defined { "success" } else { "undefined" };
                 if !failed_mode && r.status != want {
                     return viol("c05.status", format!("({}, {}) reported {:?}, expected {:?}", cmd, t, r.status, want));
+                }
+                // a pair reported `success` ran to completion with exit status 0 (the helper's own
+                // record; one that was killed leaves none)
+                if r.status == "success" {
+                    if let Some(v) = by_key.get(&(cmd.clone(), t.clone())) {
+                        if v.iter().any(|tr| tr.end_ns.is_some() && tr.exit_code != Some(0)) || (case.failing.is_some() && v.iter().any(|tr| tr.end_ns.is_none())) {
+                            return viol(
+                                "c05.success.without.clean.exit",
+                                format!("({}, {}) is reported `success`, but its process did not run to completion with exit status 0", cmd, t),
+                            );
+                        }
+                    }
                 }
             }
         }
